@@ -249,8 +249,8 @@ EXTRA_POSITIONS = [
     # further expression positions
     ("XSliceUpper", "expression", "e", ["v = a[1:$E]"]),
     ("XSliceStep", "expression", "e", ["v = a[::$E]"]),
-    ("XDelSubscriptIndex", "expression", "e", ["del d[$E]"]),
-    ("XAugSubscriptIndex", "expression", "e", ["d[$E] += 1"]),
+    ("XDelSubscriptIndex", "store-target-subscript-index", "e", ["del d[$E]"]),
+    ("XAugSubscriptIndex", "store-target-subscript-index", "e", ["d[$E] += 1"]),
     ("XAnnAssignAnnotation", "expression", "e", ["v: $E = 1"]),
     ("XReturnTupleElt", "expression", "e", ["return 1, $E"]),
     ("XWithSecondItem", "expression", "e", ["with w, $E:", "    pass"]),
